@@ -264,7 +264,7 @@ def gen_spec(rng: random.Random, feat=None):
                 elif feat['dtypes'] and feat.get('path_params', True) and 'dtype' not in p and p.get('default', None) is None and rng.random() < 0.07:
                     # a location given in the config and declared dtype=Path: run receives a Path, the storage key is made from the text as written
                     p['dtype'] = 'Path'
-                    v = rng.choice(['data/in.csv', '/abs/dir/f', 'rel', 'out/é x'] + (['{DIR}/ratings.csv', '{DIR}/{A}/f', 'sub/{B}'] if placeholders else []))
+                    v = rng.choice(['data/in.csv', '/abs/dir/f', 'rel', 'out/é x', '~/store/x', '~'] + (['{DIR}/ratings.csv', '{DIR}/{A}/f', 'sub/{B}'] if placeholders else []))
                     vals[nic] = v
                     continue
                 elif need or rng.random() < 0.5:
